@@ -174,6 +174,7 @@ func c05year(c *Ctx, y int) {
 		prev = gedcom.Date{Day: 31, Month: 12, Year: y - 1}.Years()
 	}
 	prevS := fmt.Sprintf("31 12 %d", y-1)
+	prevG, havePrev := gdate{31, 12, y - 1}, y > 1
 	yo := gdate{0, 0, y}
 	c05date(c, yo)
 	for m := 1; m <= 12; m++ {
@@ -188,7 +189,14 @@ func c05year(c *Ctx, y int) {
 				c.Oracle("", "Years is not strictly increasing from one day to the next",
 					map[string]string{"day": prevS, "next": g.String()}, fmt.Sprintf("%.17g then %.17g", prev, v), "strictly increasing")
 			}
+			// before/after on every pair of consecutive days, the year boundary included
+			if havePrev {
+				c05before(c, prevG, g)
+				c05before(c, g, prevG)
+				c05similarity(c, prevG, g)
+			}
 			prev, prevS = v, g.String()
+			prevG, havePrev = g, true
 		}
 		f, p, l := gdate{1, m, y}.Date().Years(), mo.Date().Years(), gdate{n, m, y}.Date().Years()
 		if !(f <= p && p <= l) {
@@ -203,6 +211,26 @@ func c05year(c *Ctx, y int) {
 	}
 }
 
+// c05similarity: the Years scale is what DateRange.Similarity works on, so two different days never
+// score 1, the score does not depend on how the range was built (from Date values or from text),
+// and it is the documented parabola of the Years difference.
+func c05similarity(c *Ctx, a, b gdate) {
+	da, db := a.Date(), b.Date()
+	ea, eb := da, db
+	ea.IsEndOfRange, eb.IsEndOfRange = true, true
+	fromDates := gedcom.NewDateRange(da, ea).Similarity(gedcom.NewDateRange(db, eb), gedcom.DefaultMaxYearsForSimilarity)
+	fromText := gedcom.NewDateRangeWithString(da.String()).Similarity(gedcom.NewDateRangeWithString(db.String()), gedcom.DefaultMaxYearsForSimilarity)
+	in := map[string]string{"a": a.String(), "b": b.String()}
+	if fromDates != fromText {
+		c.Oracle("", "DateRange.Similarity depends on how the ranges were built (Date values vs text)", in,
+			fmt.Sprintf("%.17g (from Date values)", fromDates), fmt.Sprintf("%.17g (from text)", fromText))
+	}
+	if a != b && !(fromDates < 1) {
+		c.Oracle("", "two different days have similarity 1", in, fmt.Sprintf("%.17g", fromDates), "< 1")
+	}
+	c.Count("similarity-pairs")
+}
+
 func init() {
 	runners["C05"] = func(c *Ctx) {
 		c.Compare = c05compare
@@ -211,7 +239,7 @@ func init() {
 		if c.Quick() {
 			years = []int{1, 2, 3, 4, 5, 99, 100, 101, 399, 400, 401, 1000, 1581, 1582, 1583, 1599, 1600, 1699, 1700,
 				1752, 1799, 1800, 1899, 1900, 1901, 1969, 1970, 1971, 1999, 2000, 2001, 2023, 2024, 2038, 2100, 2400,
-				4000, 9996, 9998, 9999}
+				4000, 9996, 9997, 9998, 9999, 1601, 2025, 2401}
 		} else {
 			for y := 1; y <= 9999; y++ {
 				years = append(years, y)
@@ -240,6 +268,9 @@ func init() {
 				}
 			}
 			c05before(c, g, h)
+			if g.d > 0 && h.d > 0 {
+				c05similarity(c, g, h)
+			}
 		}
 		// Minimum / Maximum over date nodes
 		nm := c.N(5000, 100000)
